@@ -183,12 +183,14 @@ def feats(b):
     return f
 
 
-def quota_cover(pool, n, quota=3):
-    """one pass: keep a behaviour if it shows a feature seen fewer than `quota` times; fill up to n evenly"""
+def quota_cover(pool, n, quota=3, pair_quota=None):
+    """one pass: keep a behaviour if it shows a feature seen fewer than `quota` times (consecutive pairs of qualified
+    actions: `pair_quota` times, default = quota); fill up to n evenly"""
+    pq = quota if pair_quota is None else pair_quota
     seen, keep, rest = {}, [], []
     for i, b in enumerate(pool):
         fs = feats(b)
-        if any(seen.get(x, 0) < quota for x in fs):
+        if any(seen.get(x, 0) < (pq if '>' in x else quota) for x in fs):
             keep.append(i)
             for x in fs:
                 seen[x] = seen.get(x, 0) + 1
@@ -384,7 +386,7 @@ def run(rep, tier, seed, replay):
     sets = {'direct': behaviours}
     if os.path.isdir(os.path.join(core.HARNESS, 'server', 'c06')) and not os.environ.get('VERIF_C12_NOSERVER'):
         # real Servers cost ~50-100 ms per behaviour: a feature-covering sample of everything
-        sets['server'], nf = quota_cover(behaviours, 450 if quick else 5000)
+        sets['server'], nf = quota_cover(behaviours, 450 if quick else 5000, pair_quota=1 if quick else None)
         rep.cov['server_binding_features_covered'] = nf
         rep.cov['server_binding_behaviours'] = len(sets['server'])
     if 'server' in sets:
